@@ -103,6 +103,29 @@ class Path(object):
         return '<Path %s %s>' % (self.kind, T.show(self.value))
 
 
+_NP_RETURNS_NONE = {'shuffle', 'copyto', 'put', 'place', 'putmask', 'fill', 'save', 'savez', 'savetxt', 'seed', 'seterr', 'put_along_axis'}
+
+
+def _never_none(t):
+    """terms whose value cannot be None: literals, arithmetic, comparisons, results of NumPy array functions and of constructors, slices of those"""
+    tag = t[0]
+    if tag == 'const':
+        return t[1] is not None
+    if tag in ('tuple', 'list', 'dict', 'set', 'comp', 'binop', 'cmp', 'fstr', 'lambda', 'partial'):
+        return True
+    if tag == 'sub' and t[2][0] == 'slice':
+        return _never_none(t[1])
+    if tag in ('mut', 'setitem'):
+        return _never_none(t[1])
+    if tag == 'call':
+        d = T.dotted(t[1]) or ''
+        if (d.startswith('np.') or d.startswith('numpy.')) and d.rsplit('.', 1)[-1] not in _NP_RETURNS_NONE:
+            return True
+        if d in ('list', 'tuple', 'dict', 'set', 'frozenset', 'str', 'int', 'float', 'bool', 'len', 'sorted', 'range', 'zip', 'enumerate', 'Axis', 'Axes', 'DimArray', 'Dataset'):
+            return True
+    return False
+
+
 def canon_atom(t):
     """Canonical (atom, negated) for a boolean-valued term; or ('const', bool)."""
     neg = False
@@ -170,6 +193,10 @@ def canon_atom(t):
                 return ('const', any(x == a for x in b[1])), neg
             if op in ('is', '==') and a == b and a[0] in ('param', 'name'):
                 return ('const', True), neg
+            if op == 'is' and (a == ('const', None) or b == ('const', None)):
+                other = b if a == ('const', None) else a
+                if _never_none(other):
+                    return ('const', False), neg
             return ('cmp', op, a, b), neg
         return t, neg
 
@@ -1005,6 +1032,10 @@ class Evaluator(object):
                 and T.dotted(o[1]) not in ('tuple', 'list', 'sorted', 'reversed', 'set', 'dict', 'range', 'np.asarray', 'np.array', 'np.asanyarray', 'np.atleast_1d',
                                            'np.ravel', 'np.sort', 'np.argsort', 'np.arange', 'np.diff', 'np.concatenate'):       # (these yield a sequence of data, not a tuple of results)
             return ('item', o, i[1])
+        # a literal sequence sliced with constant bounds is the literal sub-sequence ((a, b)[::-1] is (b, a))
+        if o[0] in ('tuple', 'list') and i[0] == 'slice' and all(x[0] == 'const' and (x[1] is None or (isinstance(x[1], int) and not isinstance(x[1], bool))) for x in i[1:4]) \
+                and not any(x[0] == 'star' for x in o[1]):
+            return (o[0], tuple(o[1][slice(i[1][1], i[2][1], i[3][1])]))
         if o[0] in ('tuple', 'list') and i[0] == 'const' and isinstance(i[1], int) \
                 and not any(x[0] == 'star' for x in o[1]) and -len(o[1]) <= i[1] < len(o[1]):
             return o[1][i[1]]
